@@ -42,14 +42,12 @@ def generator_seeds():
     for policy in ("first", "cycle"):
         for gen, kw in calls:
             orc = CH.Oracle([], policy)
-            saved = P.random
-            P.random = orc
+            CH.install(P)
             try:
-                out.append(getattr(P, gen)(**kw)[0])
+                with CH.owned(orc):
+                    out.append(getattr(P, gen)(**kw)[0])
             except Exception:  # noqa
                 pass
-            finally:
-                P.random = saved
     return out
 
 
